@@ -10,16 +10,21 @@ from . import c03 as A
 
 ID = 'C08'
 TITLE = 'timeseries operators equal the pointwise operation on aligned operands'
-LEAN_FILES = ['Basic', 'TSBasic', 'Fill', 'FillDriver', 'Align', 'AlignDriver', 'Ops', 'OpsDriver', 'FillLemmas', 'AlignLemmas', 'OpsLemmas', 'C08']
+LEAN_FILES = ['Basic', 'TSBasic', 'Fill', 'FillDriver', 'Align', 'AlignDriver', 'Ops', 'OpsF', 'OpsX', 'OpsDriver', 'FillLemmas', 'AlignLemmas', 'OpsLemmas',
+              'OpsFLemmas', 'OpsXLemmas', 'C08']
 RULE = ('distinct protocol lines (operator / aggregate, operands, index policy, fill method) on which the implementation returned a '
-        'value and at least two Series operands with different indices are involved')
+        'value and at least two Series / DataFrame operands are involved')
 TRUSTED = ['correspondence harness (pv.engine, pv.proto, pv.props._w5ts) and generators of pv.props.c08',
            'Lean driver parser/printer (PygModel/Basic.lean, AlignDriver.lean, OpsDriver.lean)']
 ASSUMPTIONS = ['pandas arithmetic of two Series on one index is pointwise with NaN absorbing, a scalar broadcasts, x/NaN = NaN (reference kernel of PygModel/Ops.lean, sampled)',
                'alignment is the model of C03 (Index.intersection/union, reindex, as-of fill)',
                'values are exact multiples of 1/4 and divisors powers of two (means: multiples of 3/4), so no rounded float is ever compared; float rounding is not modelled',
-               'DataFrame operands (column policies ij/oj, neutral element of a missing column) are not in the Lean model: they are checked on the implementation '
-               'against the python reference in laws(); pow_, comparisons, min_/max_, df_std are not modelled']
+               'DataFrames: `DataFrame.reindex(index[, method])` picks one source row per label for all columns (after `_nona` dropped the all-NaN rows when a fill '
+               'method is given); `pd.DataFrame(dict of Series)`; the name of `x op y` is the common Series name or None (PygModel/OpsF.lean, sampled)',
+               'comparisons with NaN are False, np.minimum/np.maximum propagate NaN, x**0 = 1 and 1**y = 1 also for NaN (PygModel/OpsX.lean, sampled)',
+               'not modelled: frames with duplicate column names / numpy arrays (positional columns), the column policies lj/rj, the object-dtype empty `pd.Series({})` '
+               '(no common column) fed on into an operator with a fill method, DataFrame operands of pow_/comparisons/min_/max_, negative or fractional exponents, '
+               'df_std, aggregates over a mix of frames and Series, float rounding']
 S = 4
 nan = float('nan')
 VALS = [0.0, 0.0, 1.0, -1.0, 2.0, 0.5, -0.25, 3.0, 1.5]
@@ -33,6 +38,8 @@ METHODS = ['N', 'N', 'ffill', 'bfill']
 # ------------------------------------------------------------------ wire
 
 def enc_in(x):
+    if isinstance(x, pd.DataFrame):
+        return '(df %s)' % W.enc_frame(x, S)
     if isinstance(x, pd.Series):
         return '(ts %s)' % W.enc_series(x, S)
     if isinstance(x, list):
@@ -47,9 +54,11 @@ def dec_in(sx):
         return None
     if sx[0] == 'ts':
         return W.dec_series(sx[1], S)
+    if sx[0] == 'df':
+        return W.dec_frame(sx[1], S)
     if sx[0] == 'num':
         v = W.dec_v(sx[1], S)
-        return int(v) if v == int(v) and int(v) % 2 == 1 else v     # odd whole numbers travel as python ints
+        return int(v) if not math.isnan(v) and v == int(v) and int(v) % 2 == 1 else v     # odd whole numbers travel as python ints
     if sx[0] == 'L':
         return [dec_in(v) for v in sx[1:]]
     raise ValueError('bad operand')
@@ -65,9 +74,19 @@ def enc_q(v):
     return 'Q:%d/%d' % (q.numerator, q.denominator)
 
 
-def enc_out(r):
+def enc_out(r, sort_columns=False):
     if r is None:
         return 'N'
+    if isinstance(r, pd.DataFrame):
+        cols = list(range(r.shape[1]))
+        if sort_columns:        # the aggregates: the order of the joint columns is pandas' business (Index.union / intersection)
+            cols.sort(key=lambda j: str(r.columns[j]))
+        return '(df (T (L%s) (D%s)))' % (''.join(' ' + W.enc_t(t) for t in r.index),
+                                         ''.join(' (%s (L%s))' % (proto.hexs(str(r.columns[j])), ''.join(' ' + enc_q(v) for v in r.iloc[:, j].values)) for j in cols))
+    if isinstance(r, pd.Series) and r.dtype == bool:
+        return '(bts (L' + ''.join(' (T %s %s)' % (W.enc_t(t), 'true' if v else 'false') for t, v in zip(r.index, r.values)) + '))'
+    if isinstance(r, (bool, np.bool_)):
+        return '(flag %s)' % ('true' if r else 'false')
     if isinstance(r, pd.Series):
         return '(ts (L' + ''.join(' (T %s %s)' % (W.enc_t(t), enc_q(v)) for t, v in zip(r.index, r.values)) + '))'
     if isinstance(r, (int, float, np.integer, np.floating)):
@@ -92,7 +111,152 @@ def rand_operands(rng, k, vals):
     return out, rel
 
 
+COLSETS = [['a', 'b'], ['a', 'b'], ['a', 'b', 'c'], ['b', 'c'], ['b', 'a'], ['c', 'd'], ['b', 'd', 'a'], ['c', 'a', 'b']]
+ONECOL = [['z'], ['a'], ['z'], ['w']]
+
+
+def rand_frame(rng, days, vals, names, nan_rate=0.18):
+    data = {c: [nan if rng.random() < nan_rate else rng.choice(vals) for _ in days] for c in names}
+    for i in range(len(days)):
+        if rng.random() < 0.15:          # rows that are entirely NaN: `_nona` drops them before an as-of reindex
+            for c in names:
+                data[c][i] = nan
+    return pd.DataFrame({c: np.array(v, dtype=float) for c, v in data.items()}, index=pd.DatetimeIndex([W.day(d) for d in days]), columns=names, dtype=float)
+
+
+def rand_fdays(rng, k):
+    rel = rng.choice(['disjoint', 'nested', 'super', 'overlap', 'overlap', 'overlap', 'empty', 'same'])
+    base = A.rand_days(rng, 'overlap', [])
+    out = [base]
+    for j in range(1, k):
+        out.append(list(base) if rel == 'same' else A.rand_days(rng, rel if (rel != 'empty' or j == 1) else 'overlap', base))
+    rng.shuffle(out)
+    return out, rel
+
+
+def rand_colsets(rng, k):
+    crel = rng.choice(['same', 'any', 'any', 'any', 'perm'])
+    first = rng.choice(COLSETS)
+    out = [first]
+    for _ in range(1, k):
+        if crel == 'same':
+            out.append(list(first))
+        elif crel == 'perm':
+            c = list(first)
+            rng.shuffle(c)
+            out.append(c)
+        else:
+            out.append(rng.choice(COLSETS))
+    return out, crel
+
+
+def gen_frames(rng, tier):
+    n = 700 if tier == 'quick' else 16000
+    for _ in range(n):
+        op = rng.choice(OPS)
+        how, m, ch = rng.choice(HOWS), rng.choice(METHODS), rng.choice(['ij', 'oj'])
+        shape = rng.choice(['df-df', 'df-df', 'df-df', 'df-df', 'df-ts', 'ts-df', 'df-num', 'num-df', 'df1-df', 'df-df1', 'df1-df1', 'df1-ts', 'ts-df1',
+                            'df1-num', 'list-none', 'list-none', 'list-df', 'df-list', 'mix-list'])
+        k = 2 if '-list' not in shape and 'list-' not in shape else rng.choice([3, 3, 4])
+        days, rel = rand_fdays(rng, k)
+        cs, crel = rand_colsets(rng, k)
+        if k > 2 and ch == 'ij' and m != 'N':
+            # not modelled: frames without a common column give `pd.Series({})` (object dtype, no datetime index); reducing on with a
+            # fill method makes `_nona` raise TypeError on it (np.isnan of an object array) - see docs/notes/C08.md
+            cs = [c if 'b' in c else ['b', 'c'] for c in cs]
+        num = lambda: rng.choice([0.0, 1.0, 2.0, -0.5, 4.0, 1, 0.25])
+        dnum = lambda: rng.choice(DIVS)
+
+        def mk(kind, j, div=False):
+            vals = DIVS if div else VALS
+            if kind == 'df':
+                return rand_frame(rng, days[j], vals, cs[j])
+            if kind == 'df1':
+                return rand_frame(rng, days[j], vals, rng.choice(ONECOL))
+            if kind == 'ts':
+                return rand_series(rng, days[j], vals)
+            return dnum() if div else num()
+        if shape in ('list-none', 'list-df', 'df-list', 'mix-list'):
+            kinds = ['df'] * k if shape != 'mix-list' else [rng.choice(['df', 'df', 'ts', 'num', 'df1']) for _ in range(k)]
+            if shape == 'list-none':
+                if op in ('sub', 'div'):
+                    op = rng.choice(['add', 'mul'])
+                a, b = [mk(kinds[j], j) for j in range(k)], None
+            elif shape == 'df-list':
+                a, b = mk('df', 0), [mk(kinds[j], j, op == 'div') for j in range(1, k)]
+            else:
+                a, b = [mk(kinds[j], j) for j in range(k - 1)], mk(kinds[-1], k - 1, op == 'div')
+        else:
+            ka, kb = shape.split('-')
+            a, b = mk(ka, 0), mk(kb, 1, op == 'div')
+        yield dict(tag='binf/%s/%s/%s/%s/%s/%s/%s' % (op, shape, rel, crel, how, m, ch),
+                   lines=['(ops binf %s %s %s %s %s %s)' % (op, enc_in(a), enc_in(b), how, m, ch)])
+    n = 250 if tier == 'quick' else 6000
+    for _ in range(n):
+        g = rng.choice(['sum', 'mean', 'count'])
+        k = rng.choice([1, 2, 2, 3, 4])
+        days, rel = rand_fdays(rng, k)
+        cs, crel = rand_colsets(rng, k)
+        fs = [rand_frame(rng, days[j], MEANV if g == 'mean' else VALS, cs[j]) for j in range(k)]
+        how, m, ch = rng.choice(['oj', 'oj', 'oj', 'ij']), rng.choice(['N', 'N', 'ffill', 'bfill']), rng.choice(['oj', 'oj', 'ij'])
+        yield dict(tag='aggf/%s/%d/%s/%s/%s/%s/%s' % (g, k, rel, crel, how, m, ch), lines=['(ops aggf %s %s %s %s %s)' % (g, enc_in(fs), how, m, ch)])
+
+
+POWB = [0.0, 1.0, 1.0, -1.0, 2.0, 0.5, -0.5, 3.0, 1.5, -0.25]
+POWE = [0.0, 0.0, 1.0, 2.0, 3.0, 2.0]
+
+
+def gen_others(rng, tier):
+    """comparisons, min_/max_, pow_ (non-negative integer exponents) on Series and scalars"""
+    n = 450 if tier == 'quick' else 9000
+    for _ in range(n):
+        kind = rng.choice(['cmp', 'cmp', 'mm', 'mm', 'pow'])
+        how, m = rng.choice(HOWS), rng.choice(METHODS)
+        num = lambda: rng.choice([0.0, 1.0, 2.0, -0.5, 4.0, 1, 0.25, nan])
+        if kind == 'mm':
+            k = rng.choice([1, 2, 2, 3, 4])
+            ss, rel = rand_operands(rng, k, VALS)
+            shape = rng.choice(['list-none', 'ts-ts', 'ts-list', 'ts-num', 'num-ts', 'list-num', 'num-num', 'none'])
+            if shape == 'list-none':
+                a, b = ss + ([num()] if rng.random() < 0.3 else []), None
+            elif shape == 'ts-ts':
+                a, b = ss[0], ss[-1]
+            elif shape == 'ts-list':
+                a, b = ss[0], ss[1:]
+            elif shape == 'ts-num':
+                a, b = ss[0], num()
+            elif shape == 'num-ts':
+                a, b = num(), ss[0]
+            elif shape == 'list-num':
+                a, b = ss, num()
+            elif shape == 'num-num':
+                a, b = num(), num()
+            else:
+                a, b = [], None
+            yield dict(tag='mm/%s/%s/%s/%s' % (shape, rel, how, m), lines=['(ops mm %s %s %s %s %s)' % (rng.choice(['min', 'max']), enc_in(a), enc_in(b), how, m)])
+            continue
+        shape = rng.choice(['ts-ts', 'ts-ts', 'ts-ts', 'ts-num', 'num-ts', 'num-num'])
+        if kind == 'cmp':
+            ss, rel = rand_operands(rng, 2, [0.0, 1.0, 1.0, -1.0, 2.0, 0.5])
+            a = ss[0] if shape[:2] == 'ts' else num()
+            b = ss[1] if shape[-2:] == 'ts' else num()
+            yield dict(tag='cmp/%s/%s/%s/%s' % (shape, rel, how, m), lines=['(ops cmp %s %s %s %s %s)' % (rng.choice(['gt', 'ge', 'lt', 'le']), enc_in(a), enc_in(b), how, m)])
+        else:
+            rel = rng.choice(['disjoint', 'nested', 'super', 'overlap', 'overlap'])
+            da = A.rand_days(rng, 'overlap', [])
+            db = A.rand_days(rng, rel, da)
+            a = rand_series(rng, da, POWB) if shape[:2] == 'ts' else rng.choice(POWB + [nan, 1])
+            b = rand_series(rng, db, POWE) if shape[-2:] == 'ts' else rng.choice(POWE + [nan, 1, 3])
+            yield dict(tag='pow/%s/%s/%s/%s' % (shape, rel, how, m), lines=['(ops pow %s %s %s %s)' % (enc_in(a), enc_in(b), how, m)])
+
+
 def generate(rng, tier):
+    yield from gen_series(rng, tier)
+    yield from gen_frames(rng, tier)
+    yield from gen_others(rng, tier)
+
+
+def gen_series(rng, tier):
     n = 900 if tier == 'quick' else 20000
     for _ in range(n):
         op = rng.choice(OPS)
@@ -152,6 +316,34 @@ def run_line(state, sx):
         if not A.same_tree(xs, before):
             return 'violation input-modified'
         return 'ok ' + enc_out(res)
+    if op in ('cmp', 'mm'):
+        a, b = dec_in(args[1]), dec_in(args[2])
+        before = A.snapshot_tree([a, b])
+        res = _fn(args[0] + '_')(a, b, join=args[3], method=A.dec_method(args[4]))
+        if not A.same_tree([a, b], before):
+            return 'violation input-modified'
+        return 'ok ' + enc_out(res)
+    if op == 'pow':
+        a, b = dec_in(args[0]), dec_in(args[1])
+        before = A.snapshot_tree([a, b])
+        res = _fn('pow_')(a, b, join=args[2], method=A.dec_method(args[3]))
+        if not A.same_tree([a, b], before):
+            return 'violation input-modified'
+        return 'ok ' + enc_out(res)
+    if op == 'binf':
+        a, b = dec_in(args[1]), dec_in(args[2])
+        before = A.snapshot_tree([a, b])
+        res = _fn(args[0] + '_')(a, b, join=args[3], method=A.dec_method(args[4]), columns=args[5])
+        if not A.same_tree([a, b], before):
+            return 'violation input-modified'
+        return 'ok ' + enc_out(res)
+    if op == 'aggf':
+        xs = dec_in(args[1])
+        before = A.snapshot_tree(xs)
+        res = _fn('df_' + args[0])(xs, join=args[2], method=A.dec_method(args[3]), columns=args[4])
+        if not A.same_tree(xs, before):
+            return 'violation input-modified'
+        return 'ok ' + enc_out(res, sort_columns=True)
     if op == 'frames':     # DataFrame operands: not in the Lean model, checked against the python reference of the statement
         bad = check_frames(args[0], W.dec_frame(args[1], S), W.dec_frame(args[2], S), args[3], args[4])
         return 'violation ' + bad if bad else 'ok frames-checked'
@@ -171,7 +363,7 @@ def compare(case, i, line, ir, mr):
 
 
 def nontrivial(line, reply):
-    return reply.startswith('ok') and line.count('(ts ') >= 2
+    return reply.startswith('ok') and line.count('(ts ') + line.count('(df ') >= 2
 
 
 # ------------------------------------------------------------------ the statement, checked directly on the implementation
@@ -284,6 +476,22 @@ def laws(rng, tier, ctx):
         bad = check_frames(op, fa, fb, how, cols)
         if bad:
             yield Finding('violation', case, bad)
+            continue
+        if op in ('add', 'mul'):       # theorems add_comm_frames / mul_comm_frames, reduce_left_frames
+            f = _fn(op + '_')
+            line = lambda a, b: '(ops binf %s %s %s %s N %s)' % (op, enc_in(a), enc_in(b), how, cols)
+            res, rev = f(fa, fb, join=how, columns=cols), f(fb, fa, join=how, columns=cols)
+            count += 1
+            if enc_out(res) != enc_out(rev):
+                yield Finding('violation', dict(tag='law-comm-frames', lines=[line(fa, fb), line(fb, fa)], atomic=True), '%s_ is not commutative on these frames' % op)
+            days_c = A.rand_days(rng, 'overlap', [])
+            cc = rng.choice([['a', 'b'], ['b', 'c'], ['b', 'a', 'd']])
+            fc = rand_frame(rng, days_c, VALS, cc)
+            if isinstance(res, pd.DataFrame):
+                lst, step = f([fa, fb, fc], join=how, columns=cols), f(res, fc, join=how, columns=cols)
+                count += 1
+                if enc_out(lst) != enc_out(step):
+                    yield Finding('violation', dict(tag='law-reduce-frames', lines=[line([fa, fb, fc], None)]), 'a list of frames is not reduced left to right')
     # aggregates
     for _ in range(n // 2):
         g = rng.choice(['sum', 'mean', 'count'])
@@ -302,6 +510,33 @@ def laws(rng, tier, ctx):
             exp.append(float(len(vs)) if g == 'count' else nan if not vs else sum(vs) if g == 'sum' else sum(vs) / len(vs))
         if not (isinstance(res, pd.Series) and list(res.index) == list(idx) and A.same_vals(list(map(float, res.values)), exp)):
             yield Finding('violation', case, 'df_%s: got %s, the statement gives %s on %s' % (g, enc_out(res) if isinstance(res, pd.Series) else res, exp, [t.day for t in idx]))
+    # aggregates on frames: union index, union of the columns, NaN-skipping cell by cell (theorems aggF_value, aggF_no_data)
+    for _ in range(n // 2):
+        g = rng.choice(['sum', 'mean', 'count'])
+        k = rng.choice([2, 3])
+        days, rel = rand_fdays(rng, k)
+        cs, crel = rand_colsets(rng, k)
+        fs = [rand_frame(rng, days[j], MEANV if g == 'mean' else VALS, cs[j]) for j in range(k)]
+        case = dict(tag='law-aggf', lines=['(ops aggf %s %s oj N oj)' % (g, enc_in(fs))])
+        try:
+            res = _fn('df_' + g)(fs)
+        except Exception as e:
+            yield Finding('violation', case, 'df_%s on frames raised %s: %s' % (g, type(e).__name__, str(e)[:100]))
+            continue
+        count += 1
+        idx = A.expected_index(fs, 'oj')
+        want_cols = sorted(set(c for f in fs for c in f.columns))
+        if not (isinstance(res, pd.DataFrame) and sorted(res.columns) == want_cols and list(res.index) == list(idx)):
+            yield Finding('violation', case, 'df_%s on frames: wrong header / index: %s' % (g, enc_out(res, True) if isinstance(res, pd.DataFrame) else type(res).__name__))
+            continue
+        for c in want_cols:
+            exp = []
+            for t in idx:
+                vs = [float(f.at[t, c]) for f in fs if c in f.columns and t in f.index and not _isnan(float(f.at[t, c]))]
+                exp.append(float(len(vs)) if g == 'count' else nan if not vs else sum(vs) if g == 'sum' else sum(vs) / len(vs))
+            if not A.same_vals(list(map(float, res[c].values)), exp):
+                yield Finding('violation', case, 'df_%s column %s: got %s, the statement gives %s' % (g, c, list(res[c].values), exp))
+                break
     yield count
 
 
